@@ -134,6 +134,20 @@ def p8_extra(mod, tree, src):
             out.append('Definition include_cart_lines_kind : Z := %d.\n' % kind)
     except Exception as e:  # noqa
         out.append(_fail('include_cart_lines_kind', 'process_includes_%s' % type(e).__name__))
+    # how the name captured from an include line is turned into a str: 0 = str(inc_path_b, encoding='utf-8'),
+    # 1 = lua.p8scii_to_unicode(inc_path_b)
+    try:
+        f = P.find_function(tree, 'process_includes')
+        asg = [n for n in P.ordered_nodes(f) if isinstance(n, ast.Assign) and len(n.targets) == 1
+               and isinstance(n.targets[0], ast.Name) and n.targets[0].id == 'inc_path']
+        shapes = {ast.dump(ast.parse("str(inc_path_b, encoding='utf-8')", mode='eval').body): 0,
+                  ast.dump(ast.parse("lua.p8scii_to_unicode(inc_path_b)", mode='eval').body): 1}
+        if len(asg) == 1 and ast.dump(asg[0].value) in shapes:
+            out.append('Definition include_name_decode_kind : Z := %d.\n' % shapes[ast.dump(asg[0].value)])
+        else:
+            out.append(_fail('include_name_decode_kind', 'include_name_decode_shape'))
+    except Exception as e:  # noqa
+        out.append(_fail('include_name_decode_kind', 'process_includes_%s' % type(e).__name__))
     return ''.join(out)
 
 
